@@ -1,5 +1,6 @@
 import CfbVerif.Phys.Api
 import CfbVerif.Drv.Api
+import CfbVerif.Spec.Check
 /-! `driver phys`: API histories on the two-level model; prints result, image hash and caches. -/
 namespace CfbVerif.Drv.Phys
 open CfbVerif.Phys CfbVerif.Dir CfbVerif.Drv CfbVerif.Drv.Api
@@ -43,17 +44,45 @@ def stepLine (st : St) (line : String) : IO (St × String) := do
     | some none => pure (st, "unrepresentable | " ++ tail st.ps .fine)
     | none => pure (st, "bad-op | -")
 
-partial def loop (hin hout : IO.FS.Stream) (st : St) : IO Unit := do
+def specLine (ps : PState) : String :=
+  match CfbVerif.Spec.check CfbVerif.Names.Gen.upper ps.image with
+  | [] => "ok"
+  | l => "bad " ++ " ;; ".intercalate (l.take 4)
+
+partial def loop (hin hout : IO.FS.Stream) (spec : Option IO.FS.Handle) (st : St) : IO Unit := do
   let line ← hin.getLine
   if line.isEmpty then return ()
   let (st', out) ← stepLine st line
   hout.putStrLn out
-  loop hin hout st'
+  if let some h := spec then
+    h.putStrLn (if st'.live then specLine st'.ps else "-")
+  loop hin hout spec st'
 
-def main : IO Unit := do
+/-- `driver phys [--spec <file>]`: with `--spec`, SpecCheck's verdict on the model image after
+every line goes to `<file>` -/
+def main (args : List String) : IO Unit := do
   let hin ← IO.getStdin
   let hout ← IO.getStdout
-  loop hin hout { ps := PState.create false 0, live := false }
+  let spec ← match args with
+    | ["--spec", path] => some <$> IO.FS.Handle.mk path .write
+    | _ => pure none
+  loop hin hout spec { ps := PState.create false 0, live := false }
+  hout.flush
+
+/-- `driver speccheck`: one image path per input line -/
+partial def specFiles : IO Unit := do
+  let hin ← IO.getStdin
+  let hout ← IO.getStdout
+  let rec go : IO Unit := do
+    let line ← hin.getLine
+    if line.isEmpty then return ()
+    let path := line.trimAscii.toString
+    let b ← IO.FS.readBinFile path
+    match CfbVerif.Spec.check CfbVerif.Names.Gen.upper b with
+    | [] => hout.putStrLn "ok"
+    | l => hout.putStrLn ("bad " ++ " ;; ".intercalate (l.take 6))
+    go
+  go
   hout.flush
 
 end CfbVerif.Drv.Phys
